@@ -174,8 +174,19 @@ def micro(steps, one_in, tier=None):
 
 MICRO_W2 = dict(what="two consecutive windowed extends over two-column orderings in both priorities, all tables of <= 2 rows",
                 fams=["wo2"], rows=2, steps=2, level=0, tabcols="MCB_TabCols", colvals="MCW_ColVals", timeout=300)
+MICRO_OW = dict(what="order_rows (either direction, with and without a limit) right before a window ordered by the same column in "
+                     "either direction, all tables of <= 2 rows (one in 3 replayed)",
+                fams=["oor", "wo"], rows=2, steps=2, level=0, one_in=3, tabcols="MCB_TabCols", colvals="MCW_ColVals", timeout=300)
+MICRO_FORK = dict(what="fork / re-combine shapes over the micro alphabet (extend z=o+1 | x=x+1, dup, swap, concat | inner join): "
+                       "every 4-call behaviour that ends with one open pipeline, <= 1 row (one in 2 replayed)",
+                  fams=["extend", "stack", "binary"], rows=1, steps=4, level=0, one_in=2, emitsel="fork", timeout=300,
+                  tabcols="MCB_TabCols", colvals="MCB_ColVals")
 JOIN_SHARED = dict(what="every join type x key spec over all pairs of tables sharing a non-key column, <= 1 row each (sampled)",
                    fams=["stack", "binary"], rows=1, steps=2, level=2, one_in=4, tabcols="MCJ_TabCols", colvals="MCJ_ColVals")
+
+JOIN_2KEYS = dict(what="every join type x key spec (one key, two keys, differently named keys, crossed keys a=b & b=a) over two tables "
+                       "with the same three numeric columns, <= 1 row each (one in 6 replayed)",
+                  fams=["stack", "binary"], rows=1, steps=2, level=2, one_in=6, tabcols="MCB2_TabCols", colvals="MCB_ColVals")
 
 INTERACTIONS = [inter(["extend", "wextend"]), inter(["extend", "project"]), inter(["extend", "order", "cols"], steps=3),
                 inter(["wextend", "cols", "project"], steps=3), inter(["extend", "select_rows", "cols"], steps=3)]
@@ -186,7 +197,7 @@ PLAN_C01 = {
         dict(what="laws, two tables, <=1 row, join/concat", fams=["stack", "binary"], rows=1, steps=2, level=1, **T12),
         dict(what="laws, one table, <=3 rows, every unary step", fams=UNARY, rows=3, steps=1, level=1, tier=("thorough",), **T1),
     ],
-    "emit": [micro(2, 8), micro(3, 60, ("thorough",)), 
+    "emit": [micro(2, 8), micro(3, 60, ("thorough",)), MICRO_FORK, MICRO_OW,
         dict(what="all 1-step pipelines over all tables with <=1 row", fams=UNARY, rows=1, steps=1, level=1, **T1),
         dict(what="all 1-step pipelines over all tables with <=2 rows", fams=UNARY, rows=2, steps=1, level=1,
              tier=("thorough",), **T1),
@@ -210,7 +221,7 @@ def nt_rows(case, n=2):
 
 PLAN_C03 = {
     "mc": [dict(what="laws, one table, <=2 rows, every unary step", fams=UNARY, rows=2, steps=1, level=1, **T1)],
-    "emit": [JOIN_SHARED, micro(2, 8), micro(3, 60, ("thorough",)), dict(what="all 1-step pipelines over all tables with <=1 row", fams=UNARY, rows=1, steps=1, level=1, **T1)],
+    "emit": [JOIN_SHARED, MICRO_OW, micro(2, 8), micro(3, 60, ("thorough",)), dict(what="all 1-step pipelines over all tables with <=1 row", fams=UNARY, rows=1, steps=1, level=1, **T1)],
     "sim": dict(what="random pipelines of 3 steps over 2 tables of <=3 rows", num=(1500, 5000), rows=3, steps=3, **SIMT),
     "backends": ("pandas", "polars", "polars_lazy"),
     "differential": {"polars": "pandas", "polars_lazy": "pandas", "pandas": "polars"},
@@ -219,7 +230,7 @@ PLAN_C03 = {
 
 PLAN_C02 = {
     "mc": [dict(what="laws, two tables, <=1 row, join/concat", fams=["stack", "binary"], rows=1, steps=2, level=1, **T12)],
-    "emit": [micro(2, 8), micro(3, 60, ("thorough",)), dict(what="all 1-step pipelines over all tables with <=1 row", fams=UNARY, rows=1, steps=1, level=1, **T1)],
+    "emit": [micro(2, 8), micro(3, 60, ("thorough",)), MICRO_FORK, dict(what="all 1-step pipelines over all tables with <=1 row", fams=UNARY, rows=1, steps=1, level=1, **T1)],
     "sim": dict(what="random pipelines of 3 steps over 2 tables of <=3 rows", num=(1500, 5000), rows=3, steps=3, **SIMT),
     "backends": ("pandas", "pg"),
     "level": "other",
@@ -279,7 +290,7 @@ PLAN_C16 = {
         dict(what="join laws (row counts, null keys never match, coalesce), two tables, <=2 rows", fams=["stack", "binary"],
              rows=2, steps=2, level=1, tabcols="MCJ_TabCols", colvals="MCJ_ColVals"),
     ],
-    "emit": [JOIN_SHARED, 
+    "emit": [JOIN_SHARED, JOIN_2KEYS,
         dict(what="every join type x key spec over all table pairs with <=1 row (one in 5 replayed)",
              fams=["stack", "binary"], rows=1, steps=2, level=2, one_in=5, **T12),
     ],
@@ -295,7 +306,7 @@ PLAN_C27 = {
         dict(what="window laws, one table, <=2 rows", fams=["wextend"], rows=2, steps=1, level=1, **T1),
         dict(what="window laws, one table, <=3 rows", fams=["wextend"], rows=3, steps=1, level=1, tier=("thorough",), **T1),
     ],
-    "emit": [MICRO_W2, micro(2, 8), micro(3, 60, ("thorough",)), dict(what="every windowed extend over all tables with <=2 rows (one in 30 replayed)", fams=["wextend"],
+    "emit": [MICRO_W2, MICRO_OW, micro(2, 8), micro(3, 60, ("thorough",)), dict(what="every windowed extend over all tables with <=2 rows (one in 30 replayed)", fams=["wextend"],
                   rows=2, steps=1, level=1, one_in=30, **T1)],
     "sim": dict(what="random pipelines around windowed extend", fams=WINF, num=(1500, 5000), rows=4, steps=2, **SIMT),
     "sims": [inter(["extend", "wextend"], rows=4), inter(["wextend"], rows=4, steps=2)],
